@@ -12,6 +12,7 @@ pub fn add_signed_mul_same_len(
     requires a@.len() == b@.len(), old(c)@.len() == a@.len() + b@.len(), old(c)@.len() <= usize::MAX,
     ensures final(c)@.len() == old(c)@.len(), -1 <= ret <= 1,
         val(final(c)@) + (ret as int) * pw(old(c)@.len() as int) == val(old(c)@) + sgn(sign) * (val(a@) * val(b@)),
+    decreases a@.len(), 1int       // recursion through the dispatcher: the factor length strictly decreases (checked in unit int_mul_toom3)
 @*/
 {
     let n = a.len();
